@@ -9,8 +9,8 @@ Local Open Scope Z_scope.
 
 Definition qs_ok (qs : queues) : bool := forallb (fun q => 0 <? fst q) qs.
 
-Lemma try_ev_step s t e s' : 0 < t -> try_ev s t e = Some s' -> step s (t, e) s'.
-Proof. unfold try_ev. intros V H. destruct (kernel_ok s t e); [|discriminate]. split; [exact V|exact H]. Qed.
+Lemma try_ev_step b s t e s' : 0 < t -> try_ev b s t e = Some s' -> step s (t, e) s'.
+Proof. unfold try_ev. intros V H. destruct (kernel_ok b s t e); [|discriminate]. split; [exact V|exact H]. Qed.
 
 Lemma lookup_in t qs e l : qs_ok qs = true -> lookup t qs = e :: l -> 0 < t /\ In t (map fst qs).
 Proof.
@@ -27,14 +27,14 @@ Proof.
   - destruct (IH Q2) as (A & B). split; [apply andb_true_iff; split; assumption|f_equal; exact B].
 Qed.
 
-Lemma pick_step s qs : qs_ok qs = true -> forall w ord seen t s',
-  pick s qs ord seen w = Some (t, s') -> exists e, step s (t, e) s' /\ In t (map fst qs).
+Lemma pick_step b s qs : qs_ok qs = true -> forall w ord seen t s',
+  pick b s qs ord seen w = Some (t, s') -> exists e, step s (t, e) s' /\ In t (map fst qs).
 Proof.
   intros Q. induction w as [|w IH]; intros ord seen t s' P; destruct ord as [|u r]; cbn [pick] in P; try discriminate.
   destruct (existsb (Z.eqb u) seen); [eapply IH; exact P|].
   destruct (lookup u qs) as [|e l] eqn:L; [eapply IH; exact P|].
-  destruct (try_ev s u e) as [s1|] eqn:T; [|eapply IH; exact P].
-  injection P as <- <-. destruct (lookup_in _ _ _ _ Q L) as (V & I). exists e. split; [apply try_ev_step; assumption|exact I].
+  destruct (try_ev b s u e) as [s1|] eqn:T; [|eapply IH; exact P].
+  injection P as <- <-. destruct (lookup_in _ _ _ _ Q L) as (V & I). exists e. split; [apply (try_ev_step b); assumption|exact I].
 Qed.
 
 (* threads the scheduler was not given never move *)
@@ -64,15 +64,16 @@ Qed.
 Section SchedProofs.
   Variable chk : gst -> bool.
   Variable period : Z.
+  Variable strict : bool.
   Theorem sched_reach : forall fuel w s qs ord done bad acc,
     qs_ok qs = true -> reach s -> others_idle (map fst qs) s ->
-    let s' := fst (fst (fst (fst (fst (sched chk period fuel w s qs ord done bad acc))))) in
+    let s' := fst (fst (fst (fst (fst (sched chk period strict fuel w s qs ord done bad acc))))) in
     reach s' /\ others_idle (map fst qs) s'.
   Proof.
     induction fuel as [|f IH]; intros w s qs ord done bad acc Q R O; cbn [sched]; [split; assumption|].
     destruct ord as [|u r]; [split; assumption|].
-    destruct (pick s qs (u :: r) [] w) as [[t s1]|] eqn:P; [|split; assumption].
-    destruct (pick_step s qs Q _ _ _ _ _ P) as (e & St & I). destruct (pop_q_ok t qs Q) as (Q' & M).
+    destruct (pick strict s qs (u :: r) [] w) as [[t s1]|] eqn:P; [|split; assumption].
+    destruct (pick_step strict s qs Q _ _ _ _ _ P) as (e & St & I). destruct (pop_q_ok t qs Q) as (Q' & M).
     pose proof St as (Vt & Hs). cbn in Hs, Vt.
     assert (R1 : reach s1) by (eapply reach_step; [exact R|exact St]).
     assert (O1 : others_idle (map fst qs) s1).
@@ -90,9 +91,9 @@ Proof. intros u _. cbn. repeat split. discriminate. Qed.
 
 (* what the checker relies on: the state whose word / counters / list GroupR.replay reports is a reachable state of the
    global model, whatever queues and order it was given *)
-Corollary replay_reach chk period qs ord :
+Corollary replay_reach chk period strict qs ord :
   qs_ok qs = true ->
-  let s' := fst (fst (fst (fst (fst (sched chk period (S (length ord)) (length ord) init_state qs ord 0 (-1) ([], [])))))) in
+  let s' := fst (fst (fst (fst (fst (sched chk period strict (S (length ord)) (length ord) init_state qs ord 0 (-1) ([], [])))))) in
   reach s' /\ others_idle (map fst qs) s'.
 Proof. intros Q. apply sched_reach; [exact Q|apply reach_init; reflexivity|apply others_idle_init]. Qed.
 
@@ -236,8 +237,8 @@ Proof.
 Qed.
 
 (* ... in particular on every state the replay passes through and reports *)
-Corollary replay_inv_b chk period qs ord :
+Corollary replay_inv_b chk period strict qs ord :
   qs_ok qs = true ->
-  let s' := fst (fst (fst (fst (fst (sched chk period (S (length ord)) (length ord) init_state qs ord 0 (-1) ([], [])))))) in
+  let s' := fst (fst (fst (fst (fst (sched chk period strict (S (length ord)) (length ord) init_state qs ord 0 (-1) ([], [])))))) in
   gfull s' < 4294967296 -> inv_b (map fst qs) s' = true.
-Proof. intros Q s' L. destruct (replay_reach chk period qs ord Q) as (R & O). apply inv_b_true; assumption. Qed.
+Proof. intros Q s' L. destruct (replay_reach chk period strict qs ord Q) as (R & O). apply inv_b_true; assumption. Qed.
